@@ -59,9 +59,8 @@ theorem edit_tail_idxOK (s s1 : St) (a : Addr) (cur app1 : App) (chains : List S
   · have hj1 : app2.jailed = false := by show app1.jailed = false; rw [hjj, hj]
     refine idxOK_restake a app2 (power cur.tokens) h hs hj1 hold ?_ ?_
     · rw [setStaked_apps, setApplication_apps, hs3a, put_del_self]
-    · rw [setStaked_idx, setApplication_idx_staked s3 a app2 ⟨hs, hj1⟩, hs3i]
-      simp only [hj1, put_put_self]
-      simp
+    · rw [setStaked_idx, setApplication_idx_staked s3 a app2 ⟨hs, hj1⟩, hs3i, if_neg (by rw [hj1]; decide)]
+      exact put_put_self _ _ _
   · have hjt : app2.jailed = true := by
       show app1.jailed = true
       rw [hjj]; cases hb : cur.jailed <;> simp_all
@@ -69,8 +68,7 @@ theorem edit_tail_idxOK (s s1 : St) (a : Addr) (cur app1 : App) (chains : List S
     refine idxOK_unindex a (some app2) (power cur.tokens) h ?_ hold ?_ ?_
     · intro app e; cases e; exact hni
     · intro b; rw [setStaked_apps, setApplication_apps, hs3a, put_del_self, get_put]
-    · rw [setStaked_idx, setApplication_idx_other s3 a app2 hni, hs3i]
-      simp [hjt]
+    · rw [setStaked_idx, if_pos hjt, setApplication_idx_other s3 a app2 hni, hs3i]
 
 theorem editStake_idxOK (s : St) (a : Addr) (cur : App) (m : MsgStake) (h : IdxOK s)
     (hcur : get s.apps a = some cur) (hst : cur.status = stStaked) : IdxOK (editStake s a cur m).2 := by
@@ -138,11 +136,14 @@ theorem deliverStake_idxOK (s : St) (signer : Addr) (m : MsgStake) (fee : Int) (
     · rename_i e s1 hne heq; rw [heq] at ha; exact ha
   · exact h
 
+theorem unstaking_ne_staked : stUnstaking ≠ stStaked := by decide
+theorem unstaked_ne_staked : stUnstaked ≠ stStaked := by decide
+
 theorem beginUnstaking_idxOK (s : St) (a : Addr) (app : App) (h : IdxOK s) (hcur : get s.apps a = some app) :
     IdxOK (beginUnstaking s a app) := by
   let t := if app.unstakingTime = 0 then s.time + s.params.unstakingTime else app.unstakingTime
   let app' : App := { app with status := stUnstaking, unstakingTime := t }
-  have hni : ¬ (app'.status = stStaked ∧ app'.jailed = false) := fun ⟨y, _⟩ => absurd y (by decide)
+  have hni : ¬ (app'.status = stStaked ∧ app'.jailed = false) := fun ⟨y, _⟩ => unstaking_ne_staked y
   show IdxOK (setApplication (delStaked s a app) a app')
   refine idxOK_unindex a (some app') (power app.tokens) h ?_ (fun p hp => idx_other_power h hcur (fun e => hp e.symm)) ?_ ?_
   · intro x e; cases e; exact hni
@@ -178,24 +179,25 @@ theorem fromPool_idx {s s1 : St} {a : Addr} {amt : Int} (h : fromPool s a amt = 
   · simp at h
   · simp at h; subst h; rfl
 
+theorem payout_same (s1 : St) (a : Addr) (amt : Int) :
+    (match fromPool s1 a amt with | some x => x | none => s1).apps = s1.apps
+    ∧ (match fromPool s1 a amt with | some x => x | none => s1).idx = s1.idx := by
+  cases hfp : fromPool s1 a amt with
+  | none => exact ⟨rfl, rfl⟩
+  | some x => exact ⟨(fromPool_spec hfp).1, fromPool_idx hfp⟩
+
 theorem finishUnstaking_idxOK (s : St) (a : Addr) (app : App) (h : IdxOK s) (hcur : get s.apps a = some app)
     (hst : app.status = stUnstaking) : IdxOK (finishUnstaking s a app) := by
-  have hni : ¬ (app.status = stStaked ∧ app.jailed = false) := fun ⟨x, _⟩ => by rw [hst] at x; exact absurd x (by decide)
+  have hni : ¬ (app.status = stStaked ∧ app.jailed = false) := fun ⟨x, _⟩ => by rw [hst] at x; exact unstaking_ne_staked x
   let s1 : St := { s with queue := queueRemove s.queue app.unstakingTime a }
   let app' : App := { app with tokens := 0, status := stUnstaked, maxRelays := 0, unstakingTime := 0 }
-  have hni' : ¬ (app'.status = stStaked ∧ app'.jailed = false) := fun ⟨y, _⟩ => absurd y (by decide)
-  -- the state after the (possibly failing) payout has the same records and index
-  have hs2 : ∀ s2, (match fromPool s1 a app.tokens with | some x => x | none => s1) = s2 → s2.apps = s.apps ∧ s2.idx = s.idx := by
-    intro s2 e
-    cases hfp : fromPool s1 a app.tokens with
-    | none => rw [hfp] at e; subst e; exact ⟨rfl, rfl⟩
-    | some x => rw [hfp] at e; subst e; exact ⟨(fromPool_spec hfp).1, fromPool_idx hfp⟩
-  obtain ⟨h2a, h2i⟩ := hs2 _ rfl
+  have hni' : ¬ (app'.status = stStaked ∧ app'.jailed = false) := fun ⟨y, _⟩ => unstaked_ne_staked y
+  obtain ⟨h2a, h2i⟩ := payout_same s1 a app.tokens
   show IdxOK (deleteApplication (setApplication (match fromPool s1 a app.tokens with | some x => x | none => s1) a app') a)
   refine idxOK_same_idx a none h (by intro x e; cases e) (fun p => idx_not_staked h hcur hni p) ?_ ?_
   · intro b
     rw [deleteApplication_apps, setApplication_apps, del_put_self, h2a, get_del]
-  · show (setApplication _ a app').idx = s.idx
+  · show (setApplication (match fromPool s1 a app.tokens with | some x => x | none => s1) a app').idx = s.idx
     rw [setApplication_idx_other _ a app' hni', h2i]
 
 theorem matureOne_idxOK (s : St) (a : Addr) (h : IdxOK s) : IdxOK (matureOne s a) := by
@@ -252,7 +254,7 @@ theorem forceUnstake_idxOK (s : St) (a : Addr) (w : WF s) (h : IdxOK s) : IdxOK 
       simp only [hb]
       obtain ⟨hi, ha⟩ := burnStaked_idx hb
       let app' : App := { app with tokens := 0, status := stUnstaked }
-      have hni' : ¬ (app'.status = stStaked ∧ app'.jailed = false) := fun ⟨y, _⟩ => absurd y (by decide)
+      have hni' : ¬ (app'.status = stStaked ∧ app'.jailed = false) := fun ⟨y, _⟩ => unstaked_ne_staked y
       refine idxOK_unindex a (some app') (power app.tokens) h ?_ hold ?_ ?_
       · intro x e; cases e; exact hni'
       · intro b; rw [setApplication_apps, ha, get_put]; rfl
